@@ -20,6 +20,7 @@ func checkC13(c *Ctx, r *Report) {
 	for id, txt := range map[string]string{
 		"C13.REFS": "reference positions are covered by a *Ref-conditional replacement whose failed lookup returns an error", "C13.UNIQ": "member tables written only by add(); add() rejects duplicates; parser call sites use add's error",
 		"C13.NAMES": "validateName reached for each named position", "C13.INOUT": "IsOutputType at field positions; IsInputType at every input position (sibling agreement)",
+		"C13.WRAP": "the input/output class predicates look through wrappers to any depth: an answer other than the recursive one is given only for a value proven to be of a named non-wrapper type, or proven to be neither *List nor *NonNull (both wrappers implement the coercer interfaces themselves, so a coercer test alone admits [[T]] for any T)",
 		"C13.NONEMPTY": "emptiness test with error at objects, interfaces, inputs, enums, unions", "C13.UNION": "non-object union member rejected", "C13.IFACE": "validateInterface per implemented interface",
 		"C13.DIRUSE": "validateDirUse reached for the uses at every carrying position", "C13.LOOP": "directive definition cycles rejected", "C13.DROP": "every []error result inside the validation call tree is used", "C13.LOCATE": "Locate's table equals the specification's",
 	} {
@@ -43,6 +44,7 @@ func checkC13(c *Ctx, r *Report) {
 	c13Uniq(c, r)
 	c13Names(c, r, vreach)
 	c13InOut(c, r, vreach)
+	c13Wrap(c, r)
 	c13NonEmpty(c, r, vreach)
 	c13DirUse(c, r, vreach)
 	c13Drop(c, r, vreach)
@@ -214,6 +216,120 @@ func c13Refs(c *Ctx, r *Report, rr *ssa.Function) {
 		r.check("C13.REFS", fmt.Sprintf("%s: an undefined name fails the replacement", fnName(fn)), fn.Pos(), nStores > 0 && nStores == nChecked, fmt.Sprintf("%d of %d replacements return an error when the lookup yields nil", nChecked, nStores))
 	}
 	r.floor("C13.REFS", "functions performing reference replacement", len(fl), 7)
+	c13RefsEveryIter(c, r, rr)
+}
+
+// c13RefsEveryIter: inside the reference-replacement walk, a replacement call made in a loop on
+// a member of the loop's element (not on the binding of a type-switch arm, which exists only in
+// that arm) must run on every completed iteration: its block dominates every back edge of the
+// loop. A `continue` that skips it leaves the references of some elements unresolved.
+func c13RefsEveryIter(c *Ctx, r *Report, rr *ssa.Function) {
+	reach := c.reachable(rr)
+	var fns []*ssa.Function
+	for f := range reach {
+		if c.inPkg(f) && f.Parent() == nil && len(f.Blocks) > 0 {
+			fns = append(fns, f)
+		}
+	}
+	sort.Slice(fns, func(i, j int) bool { return fnName(fns[i]) < fnName(fns[j]) })
+	isRepl := func(f *ssa.Function) bool {
+		if f == nil || !reach[f] || !c.inPkg(f) || !strings.HasPrefix(f.Name(), "replace") && f != rr {
+			return false
+		}
+		res := f.Signature.Results()
+		return res.Len() == 1 && isErrorType(res.At(0).Type())
+	}
+	fromAssert := func(v ssa.Value) bool {
+		v = stripIface(v)
+		for i := 0; i < 6; i++ {
+			switch t := v.(type) {
+			case *ssa.Extract:
+				if _, ok := t.Tuple.(*ssa.TypeAssert); ok {
+					return true
+				}
+				return false
+			case *ssa.TypeAssert:
+				return true
+			case *ssa.FieldAddr:
+				v = t.X
+			case *ssa.UnOp:
+				v = t.X
+			case *ssa.Phi:
+				for _, e := range t.Edges {
+					if fromAssertShallow(e) {
+						return true
+					}
+				}
+				return false
+			default:
+				return false
+			}
+		}
+		return false
+	}
+	n := 0
+	for _, fn := range fns {
+		loops := loopsOf(fn)
+		if len(loops) == 0 {
+			continue
+		}
+		ord := map[string]int{}
+		for _, ci := range callsIn(fn) {
+			cal := ci.Common().StaticCallee()
+			if !isRepl(cal) {
+				continue
+			}
+			l := innermostLoop(loops, ci.Block())
+			if l == nil {
+				continue
+			}
+			cond := false
+			for _, a := range ci.Common().Args {
+				if fromAssert(a) {
+					cond = true
+				}
+			}
+			if cond {
+				continue // the argument only exists inside a type-switch arm
+			}
+			n++
+			ord[fnName(cal)]++
+			ok := true
+			var skip *ssa.BasicBlock
+			for _, lt := range l.latches {
+				if !ci.Block().Dominates(lt) {
+					ok = false
+					skip = lt
+				}
+			}
+			pos := ci.Pos()
+			detail := "a path completes an iteration of the loop without this call: the references (types, directive uses) held by that element stay unresolved placeholders and an undefined name is accepted"
+			if skip != nil && len(skip.Instrs) > 0 {
+				detail += "; the iteration is completed from " + c.pos(valPosInstr(skip))
+			}
+			r.check("C13.REFS", fmt.Sprintf("%s: %s #%d runs on every completed iteration of its loop", fnName(fn), fnName(cal), ord[fnName(cal)]), pos, ok, detail)
+		}
+	}
+	r.floor("C13.REFS", "per-element replacement calls inside loops", n, 5)
+}
+
+func fromAssertShallow(v ssa.Value) bool {
+	v = stripIface(v)
+	if ex, ok := v.(*ssa.Extract); ok {
+		_, isTA := ex.Tuple.(*ssa.TypeAssert)
+		return isTA
+	}
+	_, isTA := v.(*ssa.TypeAssert)
+	return isTA
+}
+
+func valPosInstr(b *ssa.BasicBlock) token.Pos {
+	for _, in := range b.Instrs {
+		if in.Pos().IsValid() {
+			return in.Pos()
+		}
+	}
+	return token.NoPos
 }
 
 func c13Uniq(c *Ctx, r *Report) {
@@ -539,4 +655,111 @@ func c13Locate(c *Ctx, r *Report) {
 		r.check("C13.LOCATE", fmt.Sprintf("Locate(%s) = %s", k, spec[k]), locate.Pos(), got[k] == spec[k], fmt.Sprintf("Locate returns %q: directive uses at this node kind are checked against the wrong location", got[k]))
 	}
 	_ = types.Typ
+}
+
+// c13Wrap: wrapper transparency of IsInputType / IsOutputType (C13.WRAP).
+func c13Wrap(c *Ctx, r *Report) {
+	n := 0
+	for _, nm := range []string{"IsInputType", "IsOutputType"} {
+		fn := c.fn(nm)
+		if fn == nil {
+			r.undecided("C13.WRAP", nm, token.NoPos, "function not found")
+			continue
+		}
+		r.fnSeen(nm)
+		isWrapper := func(t types.Type) string {
+			for _, w := range []string{"List", "NonNull"} {
+				if p, ok := t.(*types.Pointer); ok && c.isNamed(p.Elem(), w) {
+					return w
+				}
+			}
+			return ""
+		}
+		examine := func(b *ssa.BasicBlock, val ssa.Value, pos token.Pos, ord int) {
+			if k, ok := val.(*ssa.Const); ok && k.Value != nil && k.Value.String() == "false" {
+				return
+			}
+			if call, ok := val.(*ssa.Call); ok {
+				if cal := call.Call.StaticCallee(); cal != nil && (cal.Name() == "IsInputType" || cal.Name() == "IsOutputType") {
+					return // delegated to the predicate on the wrapped type
+				}
+			}
+			n++
+			facts := assertFacts(b)
+			// `_, ok := x.(T); return ok`: the answer is true exactly when the assertion holds
+			if ex, ok := val.(*ssa.Extract); ok && ex.Index == 1 {
+				if ta, ok := ex.Tuple.(*ssa.TypeAssert); ok && ta.CommaOk {
+					facts = append(assertFacts(ta.Block()), assertFact{ta.X, ta.AssertedType, true})
+				}
+			}
+			okc, why := false, "the answer true is given without any type test of the value"
+			// a case clause listing several types: entered from one successful test per type
+			if cts := caseTypes(b, nil); len(cts) > 0 {
+				all := true
+				for _, t := range cts {
+					if _, isI := t.Underlying().(*types.Interface); isI || isWrapper(t) != "" {
+						all = false
+					}
+				}
+				if all {
+					okc = true
+				}
+			}
+			for _, f := range facts {
+				if !f.holds {
+					continue
+				}
+				if _, isI := f.t.Underlying().(*types.Interface); !isI {
+					if isWrapper(f.t) == "" {
+						okc = true
+					} else {
+						why = "the answer true is given for a wrapper itself"
+					}
+					continue
+				}
+				neg := map[string]bool{}
+				for _, g := range facts {
+					if !g.holds && sameVal(stripIface(g.x), stripIface(f.x)) {
+						if w := isWrapper(g.t); w != "" {
+							neg[w] = true
+						}
+					}
+				}
+				if neg["List"] && neg["NonNull"] {
+					okc = true
+				} else {
+					why = fmt.Sprintf("the answer rests on the value implementing %s, but on this path the value has not been shown to be neither *List nor *NonNull: both wrappers implement the coercer interfaces, so a wrapped type of the wrong class (e.g. [[Obj]] in an input position) is admitted", typeStr(f.t))
+				}
+			}
+			r.check("C13.WRAP", fmt.Sprintf("%s: non-recursive answer #%d is given only for a non-wrapper value", nm, ord), pos, okc, why)
+		}
+		ord := 0
+		for _, ret := range returnsOf(fn) {
+			if len(ret.Results) != 1 {
+				continue
+			}
+			if phi, ok := ret.Results[0].(*ssa.Phi); ok {
+				for i, e := range phi.Edges {
+					ord++
+					examine(phi.Block().Preds[i], e, ret.Pos(), ord)
+				}
+				continue
+			}
+			ord++
+			examine(ret.Block(), ret.Results[0], ret.Pos(), ord)
+		}
+		// the wrapper arms must exist: some recursive or iterative descent through Base
+		desc := 0
+		for _, b := range fn.Blocks {
+			for _, in := range b.Instrs {
+				if fa, ok := in.(*ssa.FieldAddr); ok {
+					if o, f := fieldOwner(fa.X.Type(), fa.Field); (o == "List" || o == "NonNull") && f == "Base" {
+						desc++
+					}
+				}
+			}
+		}
+		r.check("C13.WRAP", nm+": descends through List.Base and NonNull.Base", fn.Pos(), desc >= 2, "the predicate does not look inside both wrapper kinds")
+	}
+	r.floor("C13.WRAP", "non-recursive answers of the class predicates", n, 4)
 }
